@@ -1,7 +1,364 @@
 package main
 
-func replayCase(spec *PropSpec, r *Run, v *Violation, casePath string) (string, string) {
-	return "unreplayed", "native replay not built yet"
+// Native replay: the same harness source, compiled with the native verifnd and run by
+// `go test -overlay` against the real code and the real libraries.
+
+import (
+	"bufio"
+	"bytes"
+	"context"
+	"encoding/json"
+	"fmt"
+	"os"
+	"os/exec"
+	"path/filepath"
+	"sort"
+	"strings"
+	"time"
+)
+
+type nativeCase struct {
+	ID      string            `json:"id"`
+	Harness string            `json:"harness"`
+	Draws   map[string]string `json:"draws"`
+	Choices []ChoiceRec       `json:"choices"`
+	Params  map[string]int    `json:"params"`
 }
 
-func cmdReplay(args []string) int { return 2 }
+type nativeAssert struct {
+	Label string `json:"label"`
+	OK    bool   `json:"ok"`
+}
+
+type nativeResult struct {
+	ID      string         `json:"id"`
+	Harness string         `json:"harness"`
+	Asserts []nativeAssert `json:"asserts"`
+	Covers  []string       `json:"covers"`
+	Panic   string         `json:"panic"`
+	Stack   string         `json:"stack"`
+	Aborted string         `json:"aborted"`
+	Missing []string       `json:"missing"`
+}
+
+// time.Now() in these packages is redirected to the scripted clock during native runs.
+var clockPkgs = []string{"pkg/oidc", "pkg/op", "pkg/client", "pkg/client/rp", "pkg/http", "pkg/crypto", "pkg/client/rs", "pkg/client/tokenexchange"}
+
+func rewriteClock(scratch string, repl map[string]string) error {
+	for _, p := range clockPkgs {
+		ents, err := os.ReadDir(filepath.Join(repoDir, p))
+		if err != nil {
+			continue
+		}
+		for _, e := range ents {
+			n := e.Name()
+			if e.IsDir() || !strings.HasSuffix(n, ".go") || strings.HasSuffix(n, "_test.go") {
+				continue
+			}
+			src, err := os.ReadFile(filepath.Join(repoDir, p, n))
+			if err != nil {
+				return err
+			}
+			if !bytes.Contains(src, []byte("time.Now()")) {
+				continue
+			}
+			out := bytes.ReplaceAll(src, []byte("time.Now()"), []byte("verifndclock.Now()"))
+			// insert the import right after the package clause
+			idx := bytes.Index(out, []byte("\npackage "))
+			start := 0
+			if bytes.HasPrefix(out, []byte("package ")) {
+				start = 0
+			} else if idx >= 0 {
+				start = idx + 1
+			}
+			eol := bytes.IndexByte(out[start:], '\n')
+			if eol < 0 {
+				continue
+			}
+			pos := start + eol + 1
+			var nb bytes.Buffer
+			nb.Write(out[:pos])
+			nb.WriteString("import verifndclock \"" + ndPkg + "\"\n")
+			nb.Write(out[pos:])
+			nb.WriteString("\nvar _ = time.Now\n")
+			dst := filepath.Join(scratch, strings.ReplaceAll(p, "/", "_")+"_"+n)
+			if err := os.WriteFile(dst, nb.Bytes(), 0o644); err != nil {
+				return err
+			}
+			repl[filepath.Join(repoDir, p, n)] = dst
+		}
+	}
+	return nil
+}
+
+var scratchSeq int
+
+// runNative runs the given cases of one package natively.
+func runNative(spec *PropSpec, pkg string, cases []nativeCase) (map[string]*nativeResult, string, error) {
+	scratchSeq++
+	scratch := filepath.Join(verifDir, ".scratch", fmt.Sprintf("replay-%d-%d", os.Getpid(), scratchSeq))
+	if err := os.MkdirAll(scratch, 0o755); err != nil {
+		return nil, "", err
+	}
+	if os.Getenv("VERIF_KEEP") == "" {
+		defer os.RemoveAll(scratch)
+	}
+	repl := map[string]string{}
+	repl[filepath.Join(repoDir, "internal/verifnd/verifnd.go")] = filepath.Join(verifDir, "verifnd", "native", "verifnd.go")
+	var names []string
+	seenFile := map[string]bool{}
+	pkgName := ""
+	for _, h := range spec.Harnesses {
+		if h.Pkg != pkg {
+			continue
+		}
+		names = append(names, h.Name)
+		for _, f := range h.Files {
+			if seenFile[f] {
+				continue
+			}
+			seenFile[f] = true
+			name := "zz_verif_" + strings.ReplaceAll(strings.ReplaceAll(f, "/", "_"), ".go", "") + ".go"
+			src := filepath.Join(verifDir, "harness", f)
+			repl[filepath.Join(repoDir, pkg, name)] = src
+			if pkgName == "" {
+				b, _ := os.ReadFile(src)
+				for _, line := range strings.Split(string(b), "\n") {
+					if strings.HasPrefix(line, "package ") {
+						pkgName = strings.TrimSpace(strings.TrimPrefix(line, "package "))
+						break
+					}
+				}
+			}
+		}
+	}
+	sort.Strings(names)
+	var tb strings.Builder
+	fmt.Fprintf(&tb, "package %s\n\nimport (\n\t\"testing\"\n\tnd \"%s\"\n)\n\nfunc TestVerifReplay(t *testing.T) {\n\tnd.RunNative(t, map[string]func(){\n", pkgName, ndPkg)
+	for _, n := range names {
+		fmt.Fprintf(&tb, "\t\t%q: %s,\n", n, n)
+	}
+	tb.WriteString("\t})\n}\n")
+	testFile := filepath.Join(scratch, "replay_test.go")
+	os.WriteFile(testFile, []byte(tb.String()), 0o644)
+	repl[filepath.Join(repoDir, pkg, "zz_verif_replay_test.go")] = testFile
+	if err := rewriteClock(scratch, repl); err != nil {
+		return nil, "", err
+	}
+	ovb, _ := json.Marshal(map[string]interface{}{"Replace": repl})
+	ovFile := filepath.Join(scratch, "overlay.json")
+	os.WriteFile(ovFile, ovb, 0o644)
+	cb, _ := json.Marshal(cases)
+	casesFile := filepath.Join(scratch, "cases.json")
+	os.WriteFile(casesFile, cb, 0o644)
+
+	ctx, cancel := context.WithTimeout(context.Background(), 10*time.Minute)
+	defer cancel()
+	cmd := exec.CommandContext(ctx, "go", "test", "-v", "-vet=off", "-count=1", "-overlay", ovFile, "-run", "^TestVerifReplay$", "./"+pkg)
+	cmd.Dir = repoDir
+	cmd.Env = append(os.Environ(), "GOFLAGS=-mod=mod", "GOPROXY=off", "VERIF_CASES="+casesFile)
+	out, err := cmd.CombinedOutput()
+	results := map[string]*nativeResult{}
+	sc := bufio.NewScanner(bytes.NewReader(out))
+	sc.Buffer(make([]byte, 1<<22), 1<<22)
+	for sc.Scan() {
+		line := sc.Text()
+		if i := strings.Index(line, "VERIF-RESULT "); i >= 0 {
+			var r nativeResult
+			if json.Unmarshal([]byte(line[i+len("VERIF-RESULT "):]), &r) == nil {
+				results[r.ID] = &r
+			}
+		}
+	}
+	if os.Getenv("VERIF_KEEP") != "" {
+		fmt.Fprintln(os.Stderr, "native output:\n"+tail(string(out), 40))
+	}
+	if len(results) == 0 {
+		return results, string(out), fmt.Errorf("native run produced no results (%v)", err)
+	}
+	if len(results) == 0 && err != nil {
+		return results, string(out), fmt.Errorf("native run failed: %v", err)
+	}
+	return results, string(out), nil
+}
+
+func reproduced(v *Violation, r *nativeResult) (bool, string) {
+	if r == nil {
+		return false, "no native result"
+	}
+	if r.Aborted != "" {
+		return false, "native run aborted: " + r.Aborted
+	}
+	if v.Class == "assert" {
+		for _, a := range r.Asserts {
+			if a.Label == v.Label && !a.OK {
+				return true, "assertion failed natively"
+			}
+		}
+		if r.Panic != "" {
+			return false, "native run panicked instead: " + r.Panic
+		}
+		return false, "assertion held natively"
+	}
+	if r.Panic != "" {
+		return true, "native panic: " + r.Panic
+	}
+	for _, a := range r.Asserts {
+		if !a.OK {
+			return true, "native assertion failed: " + a.Label
+		}
+	}
+	return false, "no panic and no failed assertion natively"
+}
+
+func replayCase(spec *PropSpec, r *Run, v *Violation, casePath string) (string, string) {
+	nc := nativeCase{ID: "cx", Harness: r.harness, Draws: v.Model, Choices: v.Choices, Params: r.params}
+	res, out, err := runNative(spec, r.spec.Pkg, []nativeCase{nc})
+	if err != nil {
+		return "replay-error", err.Error() + "\n" + tail(out, 30)
+	}
+	ok, detail := reproduced(v, res["cx"])
+	if ok {
+		return "reproduced", detail
+	}
+	return "not-reproduced", detail
+}
+
+func tail(s string, n int) string {
+	lines := strings.Split(strings.TrimRight(s, "\n"), "\n")
+	if len(lines) > n {
+		lines = lines[len(lines)-n:]
+	}
+	return strings.Join(lines, "\n")
+}
+
+// validateWitnesses: translation validation of the engine — sampled path witnesses are run
+// natively; cover labels and assertion outcomes must agree with the symbolic prediction.
+func validateWitnesses(spec *PropSpec, r *Run, max int, seed int) (validated int, problems []string) {
+	ws := r.witnesses
+	if len(ws) == 0 {
+		return 0, nil
+	}
+	sort.Slice(ws, func(i, j int) bool { return fmt.Sprint(ws[i].Decisions) < fmt.Sprint(ws[j].Decisions) })
+	// deterministic spread by seed, making sure every cover label is represented
+	var pick []int
+	have := map[string]bool{}
+	for i, w := range ws {
+		for _, c := range w.Covers {
+			if !have[c] {
+				have[c] = true
+				pick = append(pick, i)
+				break
+			}
+		}
+	}
+	step := len(ws)/max + 1
+	for i := seed % step; i < len(ws) && len(pick) < max; i += step {
+		pick = append(pick, i)
+	}
+	var cases []nativeCase
+	idx := map[string]int{}
+	for _, i := range pick {
+		id := fmt.Sprintf("w%d", i)
+		if _, dup := idx[id]; dup {
+			continue
+		}
+		idx[id] = i
+		cases = append(cases, nativeCase{ID: id, Harness: r.harness, Draws: ws[i].Model, Choices: ws[i].Choices, Params: r.params})
+	}
+	res, out, err := runNative(spec, r.spec.Pkg, cases)
+	if err != nil {
+		return 0, []string{r.harness + ": witness validation could not run: " + err.Error() + "\n" + tail(out, 25)}
+	}
+	for id, i := range idx {
+		nr := res[id]
+		w := ws[i]
+		if nr == nil {
+			problems = append(problems, fmt.Sprintf("%s: witness %s: no native result", r.harness, id))
+			continue
+		}
+		if nr.Aborted != "" {
+			continue // unrealisable witness (uninterpreted function vs real library): not counted
+		}
+		if nr.Panic != "" {
+			problems = append(problems, fmt.Sprintf("%s: witness %s panicked natively: %s (inputs %v choices %v)", r.harness, id, nr.Panic, decodeModel(w.Model), w.Choices))
+			continue
+		}
+		bad := false
+		for _, a := range nr.Asserts {
+			if !a.OK {
+				problems = append(problems, fmt.Sprintf("%s: witness %s: assertion %q fails natively but was discharged symbolically (inputs %v choices %v)", r.harness, id, a.Label, decodeModel(w.Model), w.Choices))
+				bad = true
+			}
+		}
+		if fmt.Sprint(uniqSorted(nr.Covers)) != fmt.Sprint(uniqSorted(withoutEnd(w.Covers))) {
+			problems = append(problems, fmt.Sprintf("%s: witness %s: native run passed cover points %v, symbolic path predicted %v (inputs %v choices %v)", r.harness, id, uniqSorted(nr.Covers), uniqSorted(withoutEnd(w.Covers)), decodeModel(w.Model), w.Choices))
+			bad = true
+		}
+		if !bad {
+			validated++
+		}
+	}
+	return validated, problems
+}
+
+func withoutEnd(xs []string) []string {
+	var out []string
+	for _, x := range xs {
+		if x != "harness-end" {
+			out = append(out, x)
+		}
+	}
+	return out
+}
+
+func uniqSorted(xs []string) []string {
+	m := map[string]bool{}
+	for _, x := range xs {
+		m[x] = true
+	}
+	out := make([]string, 0, len(m))
+	for x := range m {
+		out = append(out, x)
+	}
+	sort.Strings(out)
+	return out
+}
+
+func cmdReplay(args []string) int {
+	if len(args) < 2 {
+		fmt.Fprintln(os.Stderr, "usage: gosmt replay <Cxx> <case.json>")
+		return 2
+	}
+	spec, err := loadSpec(args[0])
+	if err != nil {
+		fmt.Fprintln(os.Stderr, err)
+		return 2
+	}
+	b, err := os.ReadFile(args[1])
+	if err != nil {
+		fmt.Fprintln(os.Stderr, err)
+		return 2
+	}
+	var c caseFile
+	if err := json.Unmarshal(b, &c); err != nil {
+		fmt.Fprintln(os.Stderr, err)
+		return 2
+	}
+	res, out, err := runNative(spec, c.Pkg, []nativeCase{{ID: "cx", Harness: c.Harness, Draws: c.Draws, Choices: c.Choices, Params: c.Params}})
+	if err != nil {
+		fmt.Fprintln(os.Stderr, err, "\n", tail(out, 40))
+		return 2
+	}
+	v := &Violation{Class: c.Class, Label: c.Label, Site: c.Site}
+	ok, detail := reproduced(v, res["cx"])
+	rb, _ := json.MarshalIndent(res["cx"], "", " ")
+	fmt.Println(string(rb))
+	fmt.Println("inputs:", decodeModel(c.Draws), "choices:", c.Choices)
+	if ok {
+		fmt.Printf("REPRODUCED property=%s class=%s label=%q site=%s: %s\n", c.Property, c.Class, c.Label, c.Site, detail)
+		return 1
+	}
+	fmt.Printf("not reproduced: %s\n", detail)
+	return 0
+}
